@@ -34,6 +34,7 @@ PROP = {
     "routers re-attach every final": "C11", "fidelity of two mixed states": "C18", "hamming_distance accepts": "C18",
     "classical Renyi entropy at alpha=0": "C18", "random generators: BCSZ": "C18", "average_gate_fidelity uses": "C18",
     "entanglement_of_formation of a maximally": "C18",
+    "Circuit.invert mirrors the trainable": "C06", "Align names its parameter": "C06",
     "SymbolicTerm applies": "C15", "StateEvolution takes": "C16", "von_neumann_entropy of a state vector": "C18",
 }
 
